@@ -89,6 +89,14 @@ func c08Grid(c *Case) {
 				}
 			}
 		}
+		// non-negative integers far beyond the small range (2^31, 2^32, 2^53, 2^63, 10^19, 10^20, a product)
+		for _, a := range []string{"2147483648", "4294967296", "9007199254740992", "9223372036854775808", "10000000000000000000", "100000000000000000000", "(4294967296 * 4294967296)", "18446744073709551616"} {
+			for _, b := range []string{"1", "2", "3", "7", "10", "1000", "4294967296", "9007199254740993"} {
+				if !check(a+" mod "+b, "grid:mod") || !check(b+" mod "+a, "grid:mod") {
+					return
+				}
+			}
+		}
 		for _, a := range c08Operands {
 			for _, f := range []string{"floor", "ceiling"} {
 				if !check(f+"("+a+")", "grid:arith") || !check(f+"(-("+a+"))", "grid:arith") || !check(f+"("+a+" div 3)", "grid:arith") {
